@@ -128,6 +128,15 @@ def shape_corpus():
     a(mk("holes", [rx("[a-eg-k]+"), rx("[fl-p]")]))
     a(mk("holes2", [rx("[acegikmoqsuwy]+"), rx("[bdfhjlnprtvxz]+")]))
     a(mk("luts", [rx("[%s]+[0-9]" % c) for c in ["a-c", "d-fx", "g-iy", "j-lz", "m-oA", "p-rB", "s-uC", "v-wD", "E-GE", "H-JF"]]))
+    # classes with single-byte holes implemented by comparisons ("range && byte != hole"): non-loop
+    # edges of states with at most two edges, at most two comparison operations
+    a(mk("hole_cmp_nl", [rx(rb"a(?-u:[^\n])b"), rx(rb"[\n\t]")], utf8=False))
+    a(mk("hole_cmp_a", [rx(rb"(?-u:[^a])z"), rx(rb"a+")], utf8=False))
+    a(mk("hole_cmp_ascii", [rx(r"k[\x00-pr-\x7f]"), rx("kq+")]))
+    a(mk("hole_cmp_hi", [rx(rb"x(?-u:[\x80-\xbe\xc0-\xff])"), rx(rb"x\xbf\xbf")], utf8=False))
+    a(mk("hole_cmp_two", [rx(rb"m(?-u:[\x00-\x1f\x21-\x2f\x31-\xff])"), rx(rb"m[ 0]+")], utf8=False))
+    a(mk("cmp_single", [rx("ab|ac"), rx("a[x-z]")]))
+    a(mk("cmp_pair", [rx("p[ab]"), rx("p[y-z]q")]))
     a(mk("full_byte", [rx(r"(?s-u:.)"), rx("[a-z]{2}")], utf8=False))
     a(mk("any_until", [rx(r"(?s-u:.)*?;", greedy=True)], utf8=False))
     a(mk("dot", [rx(".", prio=1), rx("[a-z]+")]))
